@@ -49,6 +49,8 @@ class FakeSocket:
         self.created_seq = net.sim.next_seq()
         self.closed_seq: int | None = None
         self.shutdowns: list[int] = []
+        self.reset_received = False
+        self.peer_fin = False
         self.recv_calls = 0
         net.sockets.append(self)
         net.by_fd[self.fd] = self
@@ -153,8 +155,27 @@ class FakeSocket:
     def sendmsg(self, buffers: Any, *a: Any) -> int:
         return self.send(b"".join(bytes(b) for b in buffers))
 
+    def arrive(self, item: Any) -> None:
+        """Bytes / b'' (FIN) / an exception instance (RST) from the peer reach this socket."""
+        self.rx.append(item)
+        if isinstance(item, BaseException):
+            self.reset_received = True
+        elif len(item) == 0:
+            self.peer_fin = True
+
     def shutdown(self, how: int) -> None:
+        # as the kernel answers (calibrated against real sockets in vf/sim/calibrate.py): a socket that is not (or no longer) connected --
+        # never connected, reset by the peer, or fully closed in both directions -- refuses shutdown() with ENOTCONN
+        if self.closed:
+            raise OSError(errno.EBADF, "Bad file descriptor")
+        if self.connect_state != "done" or self.reset_received or (self.peer_fin and self.shutdowns):
+            self.net.sim.log("sock_shutdown_enotconn", self.fd)
+            raise OSError(errno.ENOTCONN, "Transport endpoint is not connected")
+        if how in (real_socket.SHUT_RD, real_socket.SHUT_RDWR) and not self.shutdowns and not self.peer_fin:
+            self.rx.append(b"")   # a socket shut down for reading reads as end-of-file from now on
         self.shutdowns.append(how)
+        if self.endpoint is not None and hasattr(self.endpoint, "on_client_shutdown"):
+            self.endpoint.on_client_shutdown(how)
 
     def close(self) -> None:
         if self.closed:
@@ -288,7 +309,7 @@ class SimNet:
         """Make bytes / b'' (EOF) / an exception instance (RST) readable at now+delay."""
         def put() -> None:
             if not sock.closed:
-                sock.rx.append(item)
+                sock.arrive(item)
         self.at(self.sim.clock + delay, put)
 
     # ---- DNS
